@@ -797,6 +797,20 @@ func SetConforms(typeCtx map[ast.Variable]ast.BaseTerm, left ast.BaseTerm, right
 	return TypeConforms(typeCtx, left, right)
 }
 
+// isNamePrefixType returns true for a name constant that denotes the type of
+// all names below it, i.e. a name that is not one of the built-in type names.
+func isNamePrefixType(c ast.Constant) bool {
+	if c.Type != ast.NameType {
+		return false
+	}
+	switch c {
+	case ast.AnyBound, ast.BotBound, ast.Float64Bound, ast.NameBound, ast.NumberBound,
+		ast.StringBound, ast.BytesBound, ast.TimeBound, ast.DurationBound:
+		return false
+	}
+	return true
+}
+
 // TypeConforms returns true if ctx |- left <: right.
 // The arguments left and right cannot be RelType or UnionType
 func TypeConforms(ctx map[ast.Variable]ast.BaseTerm, left ast.BaseTerm, right ast.BaseTerm) bool {
@@ -805,10 +819,15 @@ func TypeConforms(ctx map[ast.Variable]ast.BaseTerm, left ast.BaseTerm, right as
 	}
 	if leftConst, ok := left.(ast.Constant); ok {
 		if rightConst, ok := right.(ast.Constant); ok {
-			if strings.HasPrefix(leftConst.Symbol, rightConst.Symbol) {
+			// Only name-prefix types (/foo, /foo/bar) are ordered by prefix, on whole
+			// name parts, and only they are subtypes of /name.
+			if !isNamePrefixType(leftConst) {
+				return false
+			}
+			if isNamePrefixType(rightConst) && strings.HasPrefix(leftConst.Symbol, rightConst.Symbol+"/") {
 				return true
 			}
-			return leftConst.Type == ast.NameType && rightConst.Equals(ast.NameBound)
+			return rightConst.Equals(ast.NameBound)
 		}
 	}
 	// fn:Singleton(c) <: T if c is a member of T.
